@@ -50,6 +50,11 @@ type Spec struct {
 	hashMustHold bool
 	mute         bool
 	reopened     bool // the handle was closed / abandoned and reopened at least once
+	prevOp        string
+	damaged       bool   // an object file or schema.json was damaged from outside in a way Repair does not undo
+	repairedOK    int    // 1: the previous call was a Repair that returned no error (nothing in between); 2: and Control then succeeded
+	afterRepair   string // sweep (count/all) of the handle after that Repair + Control
+	wantSweep     string // an abandoned handle was reopened right after: the new handle must show this sweep
 	switched      bool   // an accepted Create on the existing collection changed cache / asynchronous-write settings (C17)
 	justCommitted string // "flushallc" / "close" when that call returned ok and nothing changed the collection since
 	ticksQuiet   int  // flusher ticks since the last call that may leave a write pending (async)
@@ -802,6 +807,30 @@ func (s *Spec) checkOrder(e *Exec, t, r []string, sr *specRes) {
 //   - whenever an index dump is followed by a directory dump with no write pending, every index
 //     entry must agree with the file content of its object and every index must be sorted.
 func (s *Spec) stateOracles(e *Exec, t, r []string) {
+	// Repair ... Control ... (sweep) ... abandoned handle reopened: what the new handle shows
+	switch t[0] {
+	case "corrupt", "truncfile", "rmschema", "rmentry", "stray", "drop", "failat", "crashat":
+		s.damaged = true
+	}
+	switch t[0] {
+	case "repair":
+		s.repairedOK, s.afterRepair, s.wantSweep = 0, "", ""
+		if r[0] == "ok" && !s.damaged {
+			s.repairedOK = 1
+		}
+	case "control", "count", "all", "dump", "fs", "schema":
+		// observations: keep the state
+	case "reopen":
+		// synchronous mode: "the same holds without Close after any completed call, because every
+		// mutating call commits" (C04): Repair is such a call
+		if s.repairedOK == 2 && s.afterRepair != "" && !e.cfg.Async && !s.faulted && s.crashCtx == "" && s.prevOp != "close" {
+			s.wantSweep = s.afterRepair
+		}
+		s.repairedOK, s.afterRepair = 0, ""
+	default:
+		s.repairedOK, s.afterRepair, s.wantSweep = 0, "", ""
+	}
+	defer func() { s.prevOp = t[0] }()
 	// bookkeeping for the asynchronous-write oracles
 	switch t[0] {
 	case "tick":
@@ -852,6 +881,25 @@ func (s *Spec) stateOracles(e *Exec, t, r []string) {
 		if t[0] == "dump" {
 			s.lastDump = append([]string{}, e.obs...)
 			cur := strings.Join(s.sweep, "\n")
+			// only the results of count and all (the r lines): the dump of the index may legitimately
+			// differ in the numbering of object ids after a reload
+			var rl []string
+			for _, l := range s.sweep {
+				if strings.HasPrefix(l, "r ") {
+					rl = append(rl, l)
+				}
+			}
+			rs := strings.Join(rl, "\n")
+			if s.repairedOK == 2 {
+				s.afterRepair = rs
+			}
+			if s.wantSweep != "" {
+				if rs != s.wantSweep && !s.mute && s.variant <= 1 {
+					s.fail(e, "C04", "synchronous mode: a new handle opened (without Close) right after Repair + Control succeeded does not show the collection the old handle showed: before [%.200s] after [%.200s]", s.wantSweep, rs)
+					s.fail(e, "C11", "the repaired index was not committed: a new handle opened right after Repair + Control succeeded shows [%.200s] instead of [%.200s]", rs, s.wantSweep)
+				}
+				s.wantSweep = ""
+			}
 			if p := s.pending; p != nil {
 				s.pending = nil
 				if cur != p.before {
@@ -884,6 +932,15 @@ func (s *Spec) stateOracles(e *Exec, t, r []string) {
 		}
 		s.lastSweep = ""
 	case "control", "schema":
+		// Repair returned without error (no storage fault, no crash, nothing pending): "afterwards
+		// Control succeeds" (C11)
+		if t[0] == "control" && s.repairedOK == 1 {
+			if r[0] == "ok" {
+				s.repairedOK = 2
+			} else if !s.faulted && s.crashCtx == "" && !s.mute && s.variant <= 1 && (!e.cfg.Async || !s.dirty) {
+				s.fail(e, "C11", "Control reports %q right after a Repair that returned no error", r[0])
+			}
+		}
 		// no false positive: on a database nobody damaged, with nothing pending, Control and the
 		// first load succeed (C11: "if and only if")
 		if !s.off && !s.faulted && !s.outside && s.crashCtx == "" && !s.mute && s.variant <= 1 && r[0] != "ok" &&
